@@ -89,9 +89,15 @@ func config(tier string) *opspace.Config {
 	cfg := &opspace.Config{
 		Property: prop,
 		Drivers:  hx.Drivers,
-		Inits:    []string{"empty", "seeded11"},
+		Inits:    []string{"empty", "seeded11", "pruned"},
 		MakeInit: func(drv, init string) *hx.World {
 			w := hx.NewWorld(drv)
+			if init == "pruned" {
+				// the low revisions are gone: (2:superseded 3:deployed) after two upgrades with a history limit of 2
+				w.Exec(hx.Op{Kind: "install", Release: "r", Chart: chartA}, nil)
+				w.Exec(hx.Op{Kind: "upgrade", Release: "r", Chart: chartB, MaxHistory: 2}, nil)
+				w.Exec(hx.Op{Kind: "upgrade", Release: "r", Chart: chartA, MaxHistory: 2}, nil)
+			}
 			if init == "seeded11" {
 				// two-digit revisions: the Kubernetes backends list records in name order (v1, v10, v11, v2, ...)
 				w.Exec(hx.Op{Kind: "install", Release: "r", Chart: chartA}, nil)
@@ -136,7 +142,7 @@ func config(tier string) *opspace.Config {
 			return out
 		},
 		DepthFor: func(init string) int {
-			if init == "seeded11" {
+			if init == "seeded11" || init == "pruned" {
 				return 2
 			}
 			return 0
@@ -165,7 +171,7 @@ func config(tier string) *opspace.Config {
 		},
 	}
 	if thorough {
-		cfg.Inits = []string{"empty", "seeded11", "seeded5"}
+		cfg.Inits = []string{"empty", "seeded11", "pruned", "seeded5"}
 		cfg.MaxDepth = 3
 		cfg.MaxFaulty = 1
 	}
